@@ -223,6 +223,35 @@ namespace
                                     std::move(w));
             return Rest::Route::Result::Ok;
         });
+        // /slowstream/:ms - a stream opened at once from a thread of its own (first chunk flushed), continued and ended
+        // <ms> milliseconds later; the client may be gone by then
+        Rest::Routes::Get(*r, "/slowstream/:ms", [](const Rest::Request& req, Http::ResponseWriter w) {
+            auto tag         = req.headers().tryGetRaw("X-Tag");
+            std::string body = (tag ? tag->value() : "?") + "|late part of a stream|";
+            int ms           = atoi(req.param(":ms").as<std::string>().c_str());
+            std::lock_guard<std::mutex> g(g_async.m);
+            if (g_async.closed)
+            {
+                w.send(Http::Code::Ok, body);
+                return Rest::Route::Result::Ok;
+            }
+            g_async.th.emplace_back([body, ms](Http::ResponseWriter wr) {
+                try
+                {
+                    auto st = wr.stream(Http::Code::Ok);
+                    st << "first|" << Http::flush;
+                    net::sleep_ms(ms);
+                    st << body.c_str() << Http::flush;
+                    st << Http::ends;
+                }
+                catch (const std::exception&)
+                {
+                    // the peer is gone: refusing is the expected outcome
+                }
+            },
+                                    std::move(w));
+            return Rest::Route::Result::Ok;
+        });
         // /slow/:ms - answered with send() from a thread of its own after <ms> milliseconds; the client may be gone by then
         Rest::Routes::Get(*r, "/slow/:ms", [](const Rest::Request& req, Http::ResponseWriter w) {
             auto tag         = req.headers().tryGetRaw("X-Tag");
@@ -688,13 +717,14 @@ namespace verif
         {
             rep.label("late-answer-for-a-departed-client-while-new-connections-arrive");
             bystanders = std::thread([&] {
-                for (int round = 0; round < 3 && !stop_clients; ++round)
+                for (int round = 0; round < 4 && !stop_clients; ++round)
                 {
                     std::string atag = "k" + std::to_string(case_no) + "gone" + std::to_string(round);
                     int a            = net::connect_loopback(port);
                     if (a < 0)
                         return;
-                    net::send_all(a, "GET /slow/40 HTTP/1.1\r\nHost: x\r\nX-Tag: " + atag + "\r\n\r\n");
+                    // (odd rounds: the late answer is the continuation of a stream that was opened while the client was there)
+                    net::send_all(a, std::string("GET ") + (round % 2 ? "/slowstream/40" : "/slow/40") + " HTTP/1.1\r\nHost: x\r\nX-Tag: " + atag + "\r\n\r\n");
                     net::sleep_ms(8); // the request reaches its handler
                     ::close(a);
                     net::sleep_ms(12); // the worker sees the disconnect and closes its end
